@@ -12,6 +12,30 @@ CHECKS = {
  "C03": dict(level="exploration",
    text="C01 workload plus delete clients (range deletes over generated series sets and ranges, measurement drops) racing with real snapshots and level/full compactions; checked immediately after each delete returns, on every later read, at quiescence, after the settle period (snapshots/compactions), after a clean reopen and after sampled crash images: no point written before the delete began and covered by it may be returned once the delete has returned; other points must be intact. The delete-vs-snapshot defect (hypothesis H1) was found this way and fixed (C03-F1).",
    note=ENG_NOTE + "Writers and deleters of one measurement exclude each other through a harness lock standing in for the Store's write/delete guard (C17 exercises the real guard); snapshots, compactions and readers are unconstrained."),
+ "C10": dict(level="fault_enumeration",
+   text="Histories of typed writes that race to create fields with conflicting types, measurement drops and re-creation with another type. With one client the type model is exact: every partial-write dropped count must equal the number of conflicting points, and at sampled crash cuts (all disk events incl. torn fields.idxl appends and the fields.idx rewrite), after clean reopen and at quiescence the shard's field schema must equal the model's (before or after the operation in flight at the cut). With three racing writers: never two types accepted for one field without a drop in between. The unlogged measurement drop (hypothesis H3) was found this way and fixed (C10-F1).",
+   note=ENG_NOTE + "Four field types (float, integer, string, unsigned) on dedicated fields g0..g2; process-crash model."),
+ "C39": dict(level="exploration",
+   text="The union workload (writes, typed writes, reads, range deletes, measurement drops, explicit snapshots, forced full compactions, bulk writes, clean reopen) from three clients under seeded schedules with the harness built with -race (halt on first report): data races are attributed to the seed and replay because the interleaving is the simulator's; deadlocks and busy-waits are detected by the scheduler, panics kill the worker and are reported with the seed as replay; reads are judged against the history with interval semantics.",
+   note=ENG_NOTE + "The race detector only sees the interleavings the simulator produces; backups and SetEnabled are not in this workload yet."),
+ "C40": dict(level="exploration",
+   text="Single-client sequences of batches mixing valid points with field-type conflicts (against existing fields and fields created earlier in the same batch), points carrying a time tag, points whose only field is named time, and invalid UTF-8 keys (ValidateKeys on), against the schema earlier batches created, with snapshots/compactions/drops in between; the reported dropped count must equal the model's number of rejected points, rejected points are never readable and accepted ones are (history oracle, also after reopen).",
+   note=ENG_NOTE + "Over-long string values and points without fields are not generated."),
+ "C18": dict(level="exploration",
+   text="Generated write timestamps over the full int64 ns range (0, +-1, pre-1970, Min/MaxNanoTime, group boundaries +-1) and shard group durations 1h..100y through the real coordinator.PointsWriter.MapShards and meta.Client over an in-memory KV store, with the client closed and re-opened from its persisted state between steps and group delete/truncate/precreate interleaved; after every step: each accepted point's group contains it, live groups are disjoint, bounds and truncation survive reload, ShardGroupsByTimeRange equals the model and every accepted point stays reachable. Three defects found and fixed (C18-F1/F2, C19-F1).",
+   note="Sequential histories inside a synctest bubble; real meta.Client/Data and PointsWriter, KV = inmem, TSDB store = recorder."),
+ "C19": dict(level="exploration",
+   text="Real retention.Service running on its own ticker on the simulated clock plus real MapShards; generated retention periods (incl. infinite), group layouts and clock advances. A point must be dropped iff older than now - duration at the call with an exact dropped count; the service may delete a group only if its whole range is expired and may remove only shards of deleted groups; once a group is strictly expired it is removed within two check intervals of simulated time.",
+   note="Sequential histories inside a synctest bubble; real retention.Service, meta.Client, PointsWriter; TSDB store = recorder; clock = bubble."),
+ "C31": dict(level="exploration",
+   text="Real pkg/snowflake.Generator and snowflake.IDGenerator shared by 3-4 simulated goroutines with a scheduler yield before every atomic load/CAS, while the simulated clock is advanced or frozen (sequence rollover within one millisecond): ids must be non-zero, pairwise distinct per and across generators, with intact machine-id bits; platform.ID string round trip checked on the generated ids only.",
+   note="Backward clock jumps cannot be injected (the generator reads time.Now directly, which is the bubble clock); the all-uint64 round-trip clause is a pure function and is not claimed."),
+ "C32": dict(level="exploration",
+   text="Real http.WriteHandler + points parser + LimitedReadCloser driven through ServeHTTP with request bodies delivered by a simulated stream (tape-chosen chunking, both EOF conventions, mid-body resets), plain and gzip encodings, sizes around the configured limit, malformed lines, failing org/bucket lookups and points-writer errors (plain and partial with dropped counts); the response class and what reached the points writer are compared with a model computed from the line specification. The exact-limit 413 (H7) was found and fixed (C32-F1).",
+   note="Sequential requests inside a synctest bubble; PointsWriter and lookups are recorders with injected failures; expected points come from the generator, not from the repository's parser."),
+ "C33": dict(level="exploration",
+   text="Real kit/check registry, ready gates, freshness checks, the startup progress logger and http.HealthReadyHandler under the baton scheduler with registrar, signaller and requester goroutines; each response is judged with interval semantics per gate/check (the state it implies must be one the gate held inside the request's interval; 200 iff all implied states are ready; the 503 body lists exactly the implied not-ready gates; /health carries the first failing check's message in body order).",
+   note="Instrumented: kit/check, cmd/influxd/run; no consistent multi-gate snapshot is demanded; wall-clock steps cannot be injected."),
  "C26": dict(level="fault_enumeration",
    text="Generated append/consume/advance/reopen/purge histories run against the real durable queue on a simulated disk; a crash image (state before the event plus every interesting torn prefix of the write in flight) is cut at every disk event (thorough, and one configuration of quick) or at sampled events, the real Open/repair code is run on each image and everything still deliverable is drained and compared with the model (in order, no gaps, nothing unknown, redelivery allowed). Sampling of histories, enumeration of crash points within a history.",
    note="Process-crash model: completed writes survive, the write in flight may be torn at any byte. Torn in-place appends/footer updates are a recorded known finding (C26-F1/F2) and do not gate; every other crash point gates. Power-loss reordering of unsynced data is not modelled for this property."),
